@@ -576,10 +576,33 @@ pub fn tpl_program(r: &mut Rng) -> String {
         3 => format!(
             "from {t} | derive s = 1 | join l = [{{q = 1, {c2} = 2}}] ({c1} == l.q) | join j = [{{k = 1, {c2} = 3}}] ({c3} == j.k) | select this\n"
         ),
-        // clashing names at a pipeline split
-        4 => format!(
-            "from a = {t} | join b = {u} (=={c1}) | select {{a.{c1}, a.{c2}, b.{c1}, b.{c2}, a.{c3}, b.{c3}}} | take {n} | filter {c3} > 1\n"
-        ),
+        // clashing names at a pipeline split, next to columns that have no name at all
+        // (generated names for both kinds come from one counter)
+        4 => {
+            let mut items: Vec<String> = vec![
+                format!("a.{c1}"),
+                format!("b.{c1}"),
+                format!("a.{c2}"),
+                format!("b.{c2}"),
+                format!("b.{c3}"),
+            ];
+            for j in 0..r.below(4) {
+                items.push(match r.below(3) {
+                    0 => format!("a.{c3} + b.{c4}"),
+                    1 => format!("{} * b.{c2}", j + 2),
+                    _ => format!("a.{c4} - {n}"),
+                });
+            }
+            if r.below(2) == 0 {
+                r.shuffle(&mut items);
+            }
+            let tail = match r.below(3) {
+                0 => format!("filter b.{c3} > 1"),
+                1 => format!("filter {c3} > 1"),
+                _ => format!("sort {{b.{c3}}} | take 2"),
+            };
+            format!("from a = {t} | join b = {u} (=={c1}) | select {{{}}} | take {n} | {tail}\n", items.join(", "))
+        }
         // self join of a let table with clashing names, then split
         5 => format!(
             "let lt = (from {t} | select {{{c1}, {c2}, {c3}}})\nfrom a = lt | join b = lt (=={c1}) | select {{a.{c1}, a.{c2}, b.{c1}, b.{c2}}} | take {n} | sort {{-a.{c2}}} | join c = lt (a.{c1} == c.{c1})\n"
@@ -1268,6 +1291,8 @@ impl<'a> Gen<'a> {
             hash_base: Some(0),
             panic_at: None,
             session: false,
+            warm: false,
+            log_level: None,
         }];
         for _ in 0..k {
             let mut o = op.clone();
@@ -1309,6 +1334,12 @@ impl<'a> Gen<'a> {
                 hash_base: Some(1 + (r.next_u64() >> 16)),
                 panic_at: None,
                 session: false,
+                warm: false,
+                // what the host has set the `log` crate's maximum level to (own PRNG stream)
+                log_level: {
+                    let mut lr = Rng::new(mix3(s, 0x106, calls.len() as u64));
+                    *lr.pick(&[None, None, None, Some(4u8), Some(3), Some(0), Some(0)])
+                },
             });
         }
         Plan {
@@ -1329,6 +1360,9 @@ impl<'a> Gen<'a> {
             block_yield_mean: 0,
             atomic_yield_mean: 0,
             atomic_hold_mean: 0,
+            atomic_focus: 0,
+            spin_guard: 0,
+            log_level: None,
         }
     }
 
@@ -1413,6 +1447,9 @@ impl<'a> Gen<'a> {
             block_yield_mean: 0,
             atomic_yield_mean: 0,
             atomic_hold_mean: 0,
+            atomic_focus: 0,
+            spin_guard: 0,
+            log_level: None,
         }
     }
 
@@ -1474,11 +1511,99 @@ impl<'a> Gen<'a> {
             block_yield_mean: 0,
             atomic_yield_mean: 0,
             atomic_hold_mean: 0,
+            atomic_focus: 0,
+            spin_guard: 0,
+            log_level: None,
+        }
+    }
+
+    /// A *long* history: hundreds of small, mostly distinct calls in one process (fillers:
+    /// executed, not compared), then a few ordinary calls and the sentinel, which are. State
+    /// that accumulates slowly - a cache that fills up and starts evicting, an interner, a
+    /// counter that wraps, a pool that grows - only shows after many calls.
+    fn plan_b_marathon(&self, s: u64) -> Plan {
+        let mut r = Rng::new(mix(s, 0x3a7a_7401));
+        let n = *r.pick(&[120usize, 270, 270, 520]);
+        let mut calls: Vec<Call> = Vec::with_capacity(2 * n + 16);
+        let salt = r.below(1000);
+        // the calls that are judged: made once at the very beginning (a fresh process) and
+        // once more, unchanged, after the long history
+        let mut probes: Vec<Call> = Vec::new();
+        let mut prev: Option<Op> = None;
+        for _ in 0..r.range(3, 6) {
+            let c = Call::plain(self.next_op(&mut r, prev.as_ref(), true));
+            prev = Some(c.op.clone());
+            probes.push(c);
+        }
+        calls.extend(probes.iter().cloned());
+        for i in 0..n {
+            let t = r.pick(TABLES);
+            let c = r.pick(COLS);
+            let d = r.pick(COLS);
+            let k = i + salt;
+            let src = match r.below(17) {
+                0 => format!("from tab{k} | select {{col{k}, {c}}} | filter col{k} > {i} | take {}\n", i % 50 + 1),
+                1 => format!("from {t} | derive {{v{k} = {c} + {i}, w{k} = {d} * 2}} | sort {{-v{k}}} | take {}\n", i % 9 + 1),
+                2 => format!("let l{k} = (from {t} | take {})\nfrom l{k} | join o{k} = {t} (=={c}) | select {{l{k}.{c}, o{k}.{d}}}\n", i % 7 + 2),
+                3 => format!("from {t} | group {{{c}}} (aggregate {{s{k} = sum {d}, n{k} = count this}}) | filter s{k} > {i}\n"),
+                4 => format!("from s\"SELECT a{k}, b{k} FROM src{k}\" | filter a{k} > {i} | select {{b{k}}}\n"),
+                5 => format!("from {t} | select {{x{k} = ({c} | math.round {}), y{k} = f\"{{{c}}}-{{{d}}}-{k}\"}}\n", i % 4),
+                6 => format!("from {t} | filter nope{k} ({c}) > {i}\n"),
+                7 => format!("from {t} | select {{{c}, {d}}} | filter missing_{k} > 1\n"),
+                8 => format!("from {t} | derive {{z{k} = 'unterminated {i}}}\n"),
+                9 => format!("let f{k} = a b -> a + b * {i}\nfrom {t} | derive {{r{k} = (f{k} {c} {d})}} | take {}..{}\n", i % 5 + 1, i % 5 + 4),
+                10 => format!("from {t} | window rows:-{}..0 (sort {c} | derive {{m{k} = average {d}}}) | select {{m{k}}}\n", i % 6 + 1),
+                // a wide schema: dozens of names nobody has seen before, in one call
+                11..=15 => {
+                    let w = r.range(30, 120);
+                    let cols: Vec<String> = (0..w).map(|j| format!("f{k}_{j}")).collect();
+                    format!("from wide{k} | select {{{}}} | sort {{f{k}_0}} | take {}\n", cols.join(", "), i % 30 + 1)
+                }
+                _ => format!("from {t} | select {{`col {k}` = {c}, `{k}th` = {d}}} | sort `col {k}` | take {}\n", i % 20 + 1),
+            };
+            let op = match r.below(10) {
+                0 => Op::Fmt { src },
+                1 => Op::Rq { src },
+                2 => Op::Tokens { src },
+                3 => Op::Staged { src, opts: pick_opts(&mut r, true) },
+                _ => Op::Compile { src, opts: pick_opts(&mut r, true) },
+            };
+            let mut c = Call::plain(op);
+            c.warm = true;
+            calls.push(c);
+        }
+        calls.extend(probes.iter().cloned());
+        let sentinel = self.sentinel(&mut r);
+        Plan {
+            stratum: "B".into(),
+            exec_seed: s,
+            shuttle: false,
+            engine: String::new(),
+            hash_base: if r.below(2) == 0 { 0 } else { 1 + (r.next_u64() >> 16) },
+            env_before: None,
+            threads: vec![calls],
+            sched: Sched::default(),
+            log_yield_ppm: 0,
+            sentinel,
+            keep_log: false,
+            heap_perturb: 0,
+            alloc_yield_mean: 0,
+            clock_step_ns: 0,
+            block_yield_mean: 0,
+            atomic_yield_mean: 0,
+            atomic_hold_mean: 0,
+            atomic_focus: 0,
+            spin_guard: 0,
+            log_level: None,
         }
     }
 
     pub fn plan_b(&self, i: u64, panickers: &[String]) -> Plan {
         let s = mix3(self.verif_seed, 0xB, i);
+        // one execution in forty is a long history (a PRNG stream of its own)
+        if Rng::new(mix(s, 0x3a7a)).below(40) == 0 {
+            return self.plan_b_marathon(s);
+        }
         let mut r = Rng::new(s);
         match r.below(20) {
             0 | 1 => return self.plan_b_matrix(s, &mut r),
@@ -1490,7 +1615,7 @@ impl<'a> Gen<'a> {
         let fault_panic_real = r.below(2) == 0 && !panickers.is_empty();
         let fault_env = r.below(3) == 0;
         let fault_session = r.below(3) == 0;
-        let mut threads = Vec::new();
+        let mut threads: Vec<Vec<Call>> = Vec::new();
         let mut session_thread_used = false;
         for t in 0..nthreads {
             let ncalls = r.range(1, 5);
@@ -1564,6 +1689,19 @@ impl<'a> Gen<'a> {
         }
         sentinel.extend(self.sentinel(&mut r));
         let heap_perturb = *r.pick(&[0u32, 0, 0, 7, 40, 300]);
+        // the host's log verbosity: for the whole process, and now and then changed between
+        // two calls (a PRNG stream of its own)
+        let mut lr = Rng::new(mix(s, 0x106));
+        let plan_level = *lr.pick(&[None, None, None, None, Some(4u8), Some(3), Some(0)]);
+        if lr.below(4) == 0 {
+            for calls in threads.iter_mut() {
+                for c in calls.iter_mut() {
+                    if lr.below(4) == 0 {
+                        c.log_level = Some(*lr.pick(&[0u8, 0, 3, 4, 5, 5]));
+                    }
+                }
+            }
+        }
         Plan {
             stratum: "B".into(),
             exec_seed: s,
@@ -1582,6 +1720,9 @@ impl<'a> Gen<'a> {
             block_yield_mean: 0,
             atomic_yield_mean: 0,
             atomic_hold_mean: 0,
+            atomic_focus: 0,
+            spin_guard: 0,
+            log_level: plan_level,
         }
     }
 
@@ -1699,10 +1840,16 @@ impl<'a> Gen<'a> {
             atomic_yield_mean: *r.pick(&[0u32, 0, 200, 20, 3, 1]),
             // conflict-directed holds at atomics callers can communicate through
             atomic_hold_mean: *r.pick(&[0u32, 0, 40, 10, 3, 1]),
+            atomic_focus: *r.pick(&[1u32, 2, 4, 8]),
+            spin_guard: 0,
+            log_level: None,
         };
+        plan.spin_guard = *Rng::new(mix(s, 0x5919)).pick(&[0u32, 0, 0, 400_000]);
+        plan.log_level = *Rng::new(mix(s, 0x106)).pick(&[None, None, None, None, Some(4u8), Some(3), Some(0)]);
         if theme.is_some() {
             // twins are there to meet at the same place: always look for conflicts
-            plan.atomic_hold_mean = *tr.pick(&[1u32, 2, 5, 15]);
+            plan.atomic_hold_mean = *tr.pick(&[1u32, 1, 2, 5]);
+            plan.atomic_focus = *tr.pick(&[1u32, 3, 6, 12]);
             plan.atomic_yield_mean = *tr.pick(&[0u32, 0, 30, 4]);
         }
         plan
